@@ -3,7 +3,7 @@
     Model: Csp/BitSet.v, Csp/Csp.v (tied to lib/texelutillib/pg/cspsolver.cpp and bitSet.hpp by
     the correspondence check); specification: Csp/CspSpec.v. *)
 From Coq Require Import ZArith NArith List.
-From Texel Require Import Csp.BitSet Csp.Csp Csp.CspSpec Csp.CspProofs Csp.CspTheorems.
+From Texel Require Import Csp.BitSet Csp.Csp Csp.CspSpec Csp.CspProofs Csp.CspTheorems Csp.CspFuel.
 Import ListNotations.
 Local Open Scope Z_scope.
 
@@ -55,14 +55,18 @@ Theorem C20_build_meaning : forall ops s,
 Proof. exact build_meaning. Qed.
 Print Assumptions C20_build_meaning.
 
-(** partial form of C20_in_bounds: the data-dependent word indices of removeSmaller /
-    removeLarger inside makeArcConsistent are always 0 (the SideErr outcome is unreachable).
-    Not yet proved: that the fuel of [ac_loop] always suffices (full statement below). *)
-Theorem C20_in_bounds_partial : forall cs ds mask c,
+(** inside makeArcConsistent the data-dependent word indices of removeSmaller / removeLarger
+    are always 0 (the SideErr outcome, the only place where the model records an out-of-range
+    word index, is unreachable) *)
+Theorem C20_word_index_in_bounds : forall cs ds mask c,
   Forall small ds -> (cv1 c < length ds)%nat -> (cv2 c < length ds)%nat ->
   ac_side0 cs ds mask c <> SideErr /\ ac_side1 cs ds mask c <> SideErr.
 Proof. exact ac_sides_in_bounds. Qed.
-Print Assumptions C20_in_bounds_partial.
+Print Assumptions C20_word_index_in_bounds.
 
-Definition C20_in_bounds_statement : Prop :=
-  forall s, wf s -> (length (constrs s) <= 192)%nat -> solve s <> Err.
+(** for every well-formed system within the asserted limit of 192 constraints the solver
+    never reaches an error outcome: no bit/word index outside an array, no constraint index
+    outside the constraint vector, and the work-set loop terminates within its fuel *)
+Theorem C20_in_bounds : forall s, wf s -> (length (constrs s) <= 192)%nat -> solve s <> Err.
+Proof. exact solve_no_err. Qed.
+Print Assumptions C20_in_bounds.
